@@ -787,9 +787,15 @@ def rule_silent(c: Ctx) -> RuleResult:
             seen.add(reg.func)
             targets.append((reg.func, reg.func.node.args.args[1].arg))
     push_b, push_i, pend = _push_funcs(c)
-    for f, sil in targets:
+    done: set[Func] = set()
+    queue: list[tuple[Func, str, str | None]] = [(f, sil, None) for (f, sil) in targets]
+    while queue:
+        f, sil, st_override = queue.pop(0)
+        if (f, sil) in done:
+            continue
+        done.add((f, sil))          # type: ignore[arg-type]
         r.functions += 1
-        st = f.node.args.args[0].arg
+        st = st_override or f.node.args.args[0].arg
         cfg, res = c.facts(f)
         effects: list[tuple[ast.AST, str]] = []
         for n in own_nodes(f.node):
@@ -806,6 +812,15 @@ def rule_silent(c: Ctx) -> RuleResult:
                             continue          # a terminator probe: itself a validation-mode call (checked for each dispatched rule)
                         if all(g.name in ("skipToken",) for g in cs.callees) or all(g.name == "parseLinkLabel" for g in cs.callees):
                             continue          # validation-mode scanners: they dispatch with silent=True and touch level in a paired way
+                        # a private helper that is handed the state and the silent flag: it is held to the same rule itself
+                        if len(cs.callees) == 1 and cs.kind in ("direct", "method") and cs.callees[0].module is f.module:
+                            g = cs.callees[0]
+                            gp = [a.arg for a in g.node.args.posonlyargs + g.node.args.args]
+                            p_st = next((pn for pn in gp if (a_ := c.eff.arg_for_param(cs, g, pn)) is not None and U(a_) == st), None)
+                            p_sil = next((pn for pn in gp if (a_ := c.eff.arg_for_param(cs, g, pn)) is not None and U(a_) == sil), None)
+                            if p_st and p_sil and not any(isinstance(x, ast.Name) and x.id == p_sil and isinstance(x.ctx, ast.Store) for x in own_nodes(g.node)):
+                                queue.append((g, p_sil, p_st))
+                                continue
                         effects.append((n, f"call of {U(n.func)} which may write {st}.{bad}"))
                 elif isinstance(n.func, ast.Attribute) and n.func.attr in ("append", "extend", "insert", "pop", "update", "setdefault", "clear"):
                     b = n.func.value
